@@ -197,6 +197,37 @@ class StackEval:
                     return r
             elif isinstance(s, ast.Return):
                 return self.ev(s.value, env, depth) if s.value is not None else ("const", None)
+            elif isinstance(s, ast.For) and not s.orelse:
+                # a loop over a table that evaluates to a tuple / list of items: one pass per item
+                src = self.ev(s.iter, env, depth)
+                if src[0] not in ("tuple", "list"):
+                    return ("unk", "loop over " + unparse(s.iter)[:40])
+                for item in src[1]:
+                    if isinstance(s.target, ast.Name):
+                        env[s.target.id] = item
+                    elif isinstance(s.target, (ast.Tuple, ast.List)) and item[0] in ("tuple", "list") and len(item[1]) == len(s.target.elts) and all(isinstance(t, ast.Name) for t in s.target.elts):
+                        for t, v_ in zip(s.target.elts, item[1]):
+                            env[t.id] = v_
+                    else:
+                        return ("unk", "loop target " + unparse(s.target)[:40])
+                    r = self.block(s.body, env, depth)
+                    if r is not None:
+                        return r
+            elif isinstance(s, ast.Expr) and isinstance(s.value, ast.Call) and isinstance(s.value.func, ast.Attribute) and s.value.func.attr in ("append", "extend") \
+                    and isinstance(s.value.func.value, ast.Name) and len(s.value.args) == 1 and env.get(s.value.func.value.id, self.ev(s.value.func.value, env, depth))[0] == "list":
+                name = s.value.func.value.id
+                l = env.get(name) or self.ev(s.value.func.value, env, depth)
+                a = self.ev(s.value.args[0], env, depth)
+                if l[2] is not None:
+                    msg = "`%s.%s(...)` changes the module-level list %s in place: the optional modules of this call stay in it for every later call (modules that were switched off are present, selected ones are duplicated)" % (name, s.value.func.attr, l[2])
+                    self.errors.append((s, msg))
+                    env[name] = ("err", msg)
+                elif s.value.func.attr == "append":
+                    l[1].append(a)
+                elif a[0] in ("tuple", "list"):
+                    l[1].extend(a[1])
+                else:
+                    return ("unk", "statement " + unparse(s)[:40])
             elif isinstance(s, ast.Expr):
                 continue
             else:
